@@ -23,6 +23,11 @@ Layer 1 (this file): convergence of the *replication state*.
   only commutativity and idempotence of the merge are used (`Lemmas/TwoDeltas.lean`).  So
   `cross_kind_divergence_counterexample` (three deltas, non-associativity) is the smallest shape
   of the known finding `C06:cross-kind-order`.
+* `delta_outer_stamp_dominates`, `receiver_clock_dominates_stored`,
+  `receiver_next_write_above_stored`, `sent_dominated_of_run` — the outer stamp of every shipped
+  delta dominates the register stamps inside it, so a receiver (whose clock follows outer stamps
+  only) writes above everything it stored; `hdel_keeps_outer_stamp_counterexample`: a `hash_delete`
+  that leaves the outer stamp alone breaks exactly this (write-after-receive diverges).
 * `winner_is_max_stamp` — for an LWW (string) key the agreed register is the one with the
   greatest `(time, replica)` stamp among all writes of the key.
 * Full statements `C06_rs_converges` (no `Compat`) and `C06_full_value_converges` (expiry
@@ -353,6 +358,142 @@ example : NoEmptyHWrite tieRun ∧ TwoDeltas ((init 2 false).run tieRun) kH ∧
     ¬ KindStable ((init 2 false).run tieRun) kH 0 ∧ ¬ KindStable ((init 2 false).run tieRun) kH 5 ∧
     (((init 2 false).run tieRun).sent.map (·.val.ts)) = [⟨1, 1⟩, ⟨1, 2⟩] := by
   decide
+
+section Domination
+open Shard
+
+/-! ## what a node ships dominates what it carries (why write-after-receive converges)
+
+The convergence proofs above use this through `J.sent_ok` / `Shard.Inv` (clock domination, C08):
+a delivered delta advances the receiver's Lamport clock only by its OUTER stamp
+(`apply_remote_delta`: `lamport_clock.update(&delta.value.timestamp)`), so the receiver's next
+write is stamped above the registers it just stored only because the outer stamp of every shipped
+delta dominates every register stamp inside it. -/
+
+
+/-- **every delta a node ships has an outer stamp ≥ (in time) every register stamp inside it**
+    — all local operations of M2: `record_write`, `record_delete`, `record_hash_write`,
+    `record_hash_delete` (each per-field tick is followed by `self.timestamp = *clock`) -/
+theorem delta_outer_stamp_dominates (s : Shard) (op : LOp) (d : RV) (h : s.Inv)
+    (hd : (step s op.toOp).2 = some d) : d.Dominated := by
+  have hinv' : (step s op.toOp).1.Inv := C08.inv_step s op.toOp h (by cases op <;> trivial)
+  have hget := Shard.local_get s op d hd
+  exact (C08.dominated_of_get hinv' hget).2
+
+/-- **a receiver that adopts the outer stamp of a dominated delta has a clock ≥ everything it
+    stores** (outer and inner stamps of every key, the merged one included) -/
+theorem receiver_clock_dominates_stored (r : Shard) (k : Nat) (d : RV) (h : r.Inv) (hd : d.Dominated) :
+    ∀ p ∈ (applyRemote r k d).keys, ∀ t ∈ p.2.allStamps, t.time ≤ (applyRemote r k d).clock.time := by
+  have hinv := C08.inv_remote r k d h hd
+  intro p hp t ht
+  have ⟨h1, h2⟩ := hinv.2 p hp
+  simp only [RV.allStamps, List.mem_cons] at ht
+  rcases ht with rfl | ht
+  · exact h1
+  · exact Nat.le_trans (h2 t ht) h1
+
+/-- … hence its next effective write is stamped above every register it holds: it cannot be
+    beaten, at any replica, by something it had already stored -/
+theorem receiver_next_write_above_stored (r : Shard) (k : Nat) (d : RV) (h : r.Inv) (hd : d.Dominated)
+    (w : Op) (dw : RV) (he : effective (applyRemote r k d) w = true)
+    (hw : (step (applyRemote r k d) w).2 = some dw) :
+    ∀ p ∈ (applyRemote r k d).keys, ∀ t ∈ p.2.allStamps, t.lt dw.ts = true :=
+  C08.issued_stamp_gt_seen (applyRemote r k d) w dw (C08.inv_remote r k d h hd) he hw
+
+/-- the variant of `hash_delete` that leaves the outer stamp alone (A: HSET p f1..f4; HDEL p f1..f4):
+    the shipped delta is not dominated; the receiver B (which had the HSET) ends with a clock BELOW a
+    tombstone it stores, its HSET of f4 is stamped below that tombstone, and A drops the write -/
+theorem hdel_keeps_outer_stamp_counterexample :
+    let a0 := (recordHashWrite (Shard.init 1 false) 9 [(1, [49]), (2, [49]), (3, [49]), (4, [49])])
+    let b0 := applyRemote (Shard.init 2 false) 9 a0.2
+    let del := recordHashDeleteKeepOuter a0.1 9 [1, 2, 3, 4]
+    ∃ d, del.2 = some d ∧ ¬ d.Dominated ∧
+      (let b1 := applyRemote b0 9 d
+       let w := recordHashWrite b1 9 [(4, [122])]
+       b1.clock.time < 8 ∧ w.2.ts.time = 7 ∧
+       (RV.merge d w.2).crdt.hashOf.map (fun p => (p.1, p.2.tomb)) =
+         [(1, true), (2, true), (3, true), (4, true)]) := by
+  decide
+
+
+end Domination
+
+/-- every message ever sent in any execution is dominated, and every node is clock-dominated -/
+theorem sent_dominated_of_run (n : Nat) (causal : Bool) (evs : List Ev) :
+    (∀ s ∈ ((init n causal).run evs).nodes, s.Inv) ∧
+    (∀ m ∈ ((init n causal).run evs).sent, m.val.Dominated) := by
+  have gen : ∀ (evs : List Ev) (c : Cluster), (∀ s ∈ c.nodes, s.Inv) → (∀ m ∈ c.sent, m.val.Dominated) →
+      (∀ s ∈ (c.run evs).nodes, s.Inv) ∧ (∀ m ∈ (c.run evs).sent, m.val.Dominated) := by
+    intro evs
+    induction evs with
+    | nil => intro c h1 h2; exact ⟨h1, h2⟩
+    | cons e evs ih =>
+      intro c h1 h2
+      apply ih (c.step e)
+      · cases e with
+        | loc i op =>
+          simp only [step]
+          cases hs : c.nodes[i]? with
+          | none => exact h1
+          | some s =>
+            have hinv' := C08.inv_step s op.toOp (h1 s (List.mem_of_getElem? hs)) (by cases op <;> trivial)
+            simp only
+            split <;>
+            · intro x hx
+              rcases mem_set hx with hx | hx
+              · subst hx; exact hinv'
+              · exact h1 x hx
+        | deliver j idx =>
+          simp only [step]
+          cases hs : c.nodes[j]? with
+          | none => exact h1
+          | some s =>
+            cases hm : c.sent[idx]? with
+            | none => exact h1
+            | some m =>
+              simp only
+              split
+              · exact h1
+              · intro x hx
+                rcases mem_set hx with hx | hx
+                · subst hx
+                  exact C08.inv_remote s m.key m.val (h1 s (List.mem_of_getElem? hs))
+                    (h2 m (List.mem_of_getElem? hm))
+                · exact h1 x hx
+      · cases e with
+        | loc i op =>
+          simp only [step]
+          cases hs : c.nodes[i]? with
+          | none => exact h2
+          | some s =>
+            simp only
+            cases hd : (Shard.step s op.toOp).2 with
+            | none => exact h2
+            | some d =>
+              simp only
+              intro m hm
+              rcases List.mem_append.mp hm with hm | hm
+              · exact h2 m hm
+              · simp only [List.mem_singleton] at hm
+                subst hm
+                exact delta_outer_stamp_dominates s op d (h1 s (List.mem_of_getElem? hs)) hd
+        | deliver j idx =>
+          simp only [step]
+          cases hs : c.nodes[j]? with
+          | none => exact h2
+          | some s =>
+            cases hm : c.sent[idx]? with
+            | none => exact h2
+            | some m =>
+              simp only
+              split <;> exact h2
+  apply gen evs (init n causal)
+  · intro s hs
+    simp only [init, List.mem_map] at hs
+    obtain ⟨i, _, rfl⟩ := hs
+    exact Shard.inv_init _ _
+  · intro m hm; cases hm
+
 
 /-! ## non-vacuity: a concurrent, reordered, duplicated schedule meeting the hypotheses -/
 
